@@ -13,7 +13,7 @@ Lemma resize1_const_fwd_grow (c : R) (x : list R) pl pr : (0 < pl + pr)%nat ->
   resize1 PConstant Forward c true x (pl + length x + pr) (Z.of_nat pl)
   = Ok (repeat c pl ++ x ++ repeat c pr).
 Proof.
-  intros Hpos. unfold resize1. cbn [pmode_eqb negb andb is_fwd padding_applies]. numR.
+  intros Hpos. rewrite resize1_valid by offv. unfold resize1_core. cbn [pmode_eqb negb andb is_fwd padding_applies]. numR.
   destruct (Reqb_spec c 0) as [->|Hc]; cbn [negb];
     rewrite assign_intersection_grow by exact Hpos; reflexivity.
 Qed.
@@ -32,7 +32,7 @@ Lemma resize1_adj_shrink_all m cast (A B C : list R) :
   resize1 m Adjoint 0 cast (A ++ B ++ C) (length B) (Z.of_nat (length A)) = Ok (adj_struct m A B C).
 Proof.
   intros Hpos Hok. destruct (pmode_eqb m PConstant) eqn:E.
-  - destruct m; try discriminate E. unfold resize1.
+  - destruct m; try discriminate E. rewrite resize1_valid by offv. unfold resize1_core.
     assert (E' : (length (A ++ B ++ C) <? length B)%nat = false)
       by (apply Nat.ltb_ge; rewrite !app_length; lia).
     rewrite E', andb_false_r. cbn [pmode_eqb negb andb is_fwd padding_applies]. numR.
@@ -46,7 +46,7 @@ Lemma resize1_adj_grow m (x : list R) pl pr : (0 < pl + pr)%nat ->
   resize1 m Adjoint 0 true x (pl + length x + pr) (Z.of_nat pl)
   = Ok (repeat 0 pl ++ x ++ repeat 0 pr).
 Proof.
-  intros Hpos. unfold resize1. cbn [negb andb is_fwd]. rewrite !andb_false_r. numR.
+  intros Hpos. rewrite resize1_valid by offv. unfold resize1_core. cbn [negb andb is_fwd]. rewrite !andb_false_r. numR.
   rewrite Reqb_refl. cbn [negb]. rewrite andb_false_r.
   destruct (padding_applies m).
   - rewrite ap1_skipped by lia. now rewrite assign_intersection_grow by exact Hpos.
@@ -58,7 +58,7 @@ Lemma resize1_same m d (c : R) cast (x : list R) off :
   (d = Adjoint -> m = PConstant -> c = 0) ->
   resize1 m d c cast x (length x) off = Ok x.
 Proof.
-  intros Hc. unfold resize1. rewrite Nat.ltb_irrefl, andb_false_r.
+  intros Hc. rewrite resize1_valid by offv. unfold resize1_core. rewrite Nat.ltb_irrefl, andb_false_r.
   destruct d; cbn [is_fwd negb andb].
   - rewrite assign_intersection_same. destruct (padding_applies m); [|reflexivity].
     apply ap1_skipped; lia.
